@@ -197,16 +197,19 @@ PLAN["C08"] = {
              "indices over the full uint32 range with edge values, batch 0..8: ComputeInputHashInsertion/Deletion must equal Keccak-256 of the reference fixed-width packing (4-byte BE indices, 32-byte BE roots and "
              "commitments); a quarter of the cases are genuine valid batches (depth 1..32, histories as C01/C02) whose helper hash must also be accepted by the full circuit in the test engine. "
              "(CLI, rapid) gen-test-params run through the built binary for drawn (mode, depth 1..32 / 1..31, batch 1..12) inside its supported range (batch resp. 2*batch leaves must exist): stdout is one well-formed "
-             "parameter document of the requested dimensions, its inputHash equals the reference packing hash of its own fields, and the circuit accepts it. "
+             "parameter document of the requested dimensions, its inputHash equals the reference packing hash of its own fields, and the circuit accepts it; (CLISweep, exhaustive) EVERY supported (mode, depth, batch 1..12) triple (~700) "
+             "with the cheap part of that oracle (well-formed, right dimensions, hash = reference packing, batch satisfies the reference relation). "
              "Non-trivial = a root or commitment shorter than 32 bytes, an index >= 2^24, or any CLI triple; distinct = SHA-1 of the canonical case."),
     "assumptions": A_COMMON + ["gen-test-params is only exercised where it is defined: batch (insertion) / 2*batch (deletion) consecutive leaves must fit the tree (main.go writes them unconditionally)"],
     "technique": "differential property testing against the reference on-chain packing, with generators built to reach short (leading-zero) values; CLI sweep",
     "level_text": "Exploration: the helper is a pure function of its fields and is compared with an independent packing on thousands of length-biased inputs; end-to-end provability is checked on genuine batches and CLI output.",
     "level_note": "x/crypto Keccak and the harness packing are the trusted on-chain definition; values restricted to [0,r) as the property states",
     "quick": [{"test": "TestC08_Helpers", "checks": 250, "shards": 4, "timeout": 900},
-              {"test": "TestC08_CLI", "checks": 25, "shards": 4, "cli": True, "timeout": 900}],
+              {"test": "TestC08_CLI", "checks": 15, "shards": 4, "cli": True, "timeout": 900},
+              {"test": "TestC08_CLISweep", "rapid": False, "shards": 4, "cli": True, "timeout": 900}],
     "thorough": [{"test": "TestC08_Helpers", "checks": 3000, "shards": 10, "timeout": 3000},
-                 {"test": "TestC08_CLI", "checks": 120, "shards": 6, "cli": True, "timeout": 3000}],
+                 {"test": "TestC08_CLI", "checks": 120, "shards": 6, "cli": True, "timeout": 3000},
+                 {"test": "TestC08_CLISweep", "rapid": False, "shards": 8, "cli": True, "timeout": 3000}],
 }
 
 PLAN["C10"] = {
